@@ -163,6 +163,42 @@ def real_chain_k(rep, pid, binp):
     return bad
 
 
+def lossy_witness(rep, binp):
+    """Replays the model witness C01_real_lossy_hit_refuted_on_a_block_tree (Props/C01.v `lossy_block_case` = `vh blocktree case 2 649`)
+    on the implementation: the generator still produces that input, the real-cache run differs from the exact-key run, and both are what
+    the theorem says (the integers are read from the Props file)."""
+    src = pins_strip(open(os.path.join(COQ, 'Props', 'C01.v')).read())
+    m = re.search(r'Definition lossy_block_case : list Z :=\s*\[([^\]]*)\]', src)
+    t = re.search(r'Theorem C01_real_lossy_hit_refuted_on_a_block_tree :(.*?)Proof\.', src, re.S)
+    if not m or not t:
+        rep.add_broken('witness', 'C01_real_lossy_hit_refuted_on_a_block_tree', 'cannot find the witness in Props/C01.v')
+        return
+    case = [int(x) for x in m.group(1).replace('\n', ' ').split(';')]
+    halves = t.group(1).split('run_case_real lossy_block_case')
+    ints = lambda txt: [int(x) for x in re.findall(r'-?\d+', re.sub(r'%Z', '', txt.split('=', 1)[1]))]
+    want_exact, want_real = ints(halves[0]), ints(halves[1])[2:]
+    rc1, out1 = vh(binp, ['blocktree', 'cases', 2, 1, 649], timeout=60)
+    rc2, out2 = vh(binp, ['blocktree', 'cases', 2, 1, 649, 'real'], timeout=60)
+    c1, r1 = parse_cr(out1)
+    c2, r2 = parse_cr(out2)
+    ok_input = bool(c1) and c1[0] == case
+    rep.cov['lossy_block_witness'] = {'input_regenerated': ok_input, 'exact_run_as_stated': bool(r1) and r1[0] == want_exact,
+                                      'real_run_as_stated': bool(r2) and r2[0] == want_real, 'real_differs_from_exact': 'L 0' not in out2}
+    if not ok_input:
+        rep.add_broken('witness', 'C01_real_lossy_hit_refuted_on_a_block_tree', 'vh blocktree case 2 649 no longer generates the stated input')
+    elif r1[0] != want_exact or r2[0] != want_real:
+        rep.add_broken('witness', 'C01_real_lossy_hit_refuted_on_a_block_tree',
+                       'the implementation no longer behaves as the model witness says: exact %s real %s' % (r1[0] == want_exact, r2[0] == want_real))
+    else:
+        rep.known.append('lossy-cache-key: model witness C01_real_lossy_hit_refuted_on_a_block_tree replayed (one leaf with percentage padding, two '
+                         'passes: the real cache keeps content size 93.53125 x 43.53125, exact key / fresh tree 70.75 x 20.75)')
+
+
+def pins_strip(src):
+    from ..pins import strip_comments
+    return strip_comments(src)
+
+
 if __name__ == '__main__':
     rc, out, binp, dt = build_harness('release')
     if rc != 0:
